@@ -25,37 +25,67 @@ func genNumKey(repo string) (string, error) {
 	if fd == nil {
 		return "", fmt.Errorf("getOrCreateNumbering not found")
 	}
+	// by use, not by name: the key is the expression the map of abstract numbering definitions is indexed with (in
+	// getOrCreateNumbering or a function of the package it calls); its fields are the fields of the *ListConfig
+	// parameter that occur in the expression (or in the definition of the variable that holds it)
 	var fields []string
 	found := false
-	ast.Inspect(fd, func(n ast.Node) bool {
-		as, ok := n.(*ast.AssignStmt)
-		if !ok || len(as.Lhs) != 1 || len(as.Rhs) != 1 {
-			return true
-		}
-		id, ok := as.Lhs[0].(*ast.Ident)
-		if !ok || id.Name != "abstractKey" {
-			return true
-		}
-		c, ok := as.Rhs[0].(*ast.CallExpr)
-		if !ok || callName(c) != "fmt.Sprintf" {
-			return true
-		}
-		found = true
-		for _, a := range c.Args[1:] {
-			if s, ok := a.(*ast.SelectorExpr); ok {
-				if x, ok := s.X.(*ast.Ident); ok && x.Name == "config" {
-					fields = append(fields, s.Sel.Name)
-					continue
+	for _, g := range reachFuncs(p, fd, 3, map[string]bool{}) {
+		cfgParams := map[string]bool{}
+		if g.Type.Params != nil {
+			for _, prm := range g.Type.Params.List {
+				if exprString(prm.Type) == "*ListConfig" {
+					for _, n := range prm.Names {
+						cfgParams[n.Name] = true
+					}
 				}
 			}
-			fields = append(fields, "?")
 		}
-		return true
-	})
-	if !found {
-		return "", fmt.Errorf("abstractKey := fmt.Sprintf(...) not found")
+		var keyExprs []ast.Expr
+		ast.Inspect(g.Body, func(n ast.Node) bool {
+			ie, ok := n.(*ast.IndexExpr)
+			if ok && strings.HasSuffix(exprStringDeep(ie.X), ".abstractNums") {
+				keyExprs = append(keyExprs, ie.Index)
+			}
+			return true
+		})
+		for _, ke := range keyExprs {
+			def := ke
+			if id, ok := ke.(*ast.Ident); ok {
+				ast.Inspect(g.Body, func(n ast.Node) bool {
+					as, ok := n.(*ast.AssignStmt)
+					if ok && len(as.Lhs) == 1 && len(as.Rhs) == 1 {
+						if l, ok := as.Lhs[0].(*ast.Ident); ok && l.Name == id.Name {
+							def = as.Rhs[0]
+						}
+					}
+					return true
+				})
+			}
+			ast.Inspect(def, func(n ast.Node) bool {
+				if sel, ok := n.(*ast.SelectorExpr); ok {
+					if x, ok := sel.X.(*ast.Ident); ok && cfgParams[x.Name] {
+						found = true
+						dup := false
+						for _, f := range fields {
+							if f == sel.Sel.Name {
+								dup = true
+							}
+						}
+						if !dup {
+							fields = append(fields, sel.Sel.Name)
+						}
+					}
+				}
+				return true
+			})
+		}
 	}
-	// level range: for i := LO; i <= HI; i++ in createAbstractNum
+	if !found {
+		return "", fmt.Errorf("the key of the abstract numbering cache (index of .abstractNums) does not mention the list configuration")
+	}
+	// level range: for i := LO; i <= HI; i++ in createAbstractNum (literals or named constants)
+	consts := numConsts(p)
 	lo, hi := "", ""
 	if cf := p.funcDecl("Document", "createAbstractNum"); cf != nil {
 		ast.Inspect(cf, func(n ast.Node) bool {
@@ -64,13 +94,13 @@ func genNumKey(repo string) (string, error) {
 				return true
 			}
 			if as, ok := fs.Init.(*ast.AssignStmt); ok && len(as.Rhs) == 1 {
-				if bl, ok := as.Rhs[0].(*ast.BasicLit); ok {
-					lo = bl.Value
+				if l, ok := numOf(as.Rhs[0], consts); ok {
+					lo = l
 				}
 			}
 			if be, ok := fs.Cond.(*ast.BinaryExpr); ok && be.Op == token.LEQ {
-				if bl, ok := be.Y.(*ast.BasicLit); ok {
-					hi = bl.Value
+				if l, ok := numOf(be.Y, consts); ok {
+					hi = l
 				}
 			}
 			return true
